@@ -91,8 +91,12 @@ def _cured_by(repair: str, ctx: Any, case: dict, v: dict) -> bool:
     if key not in _REPAIR_CACHE:
         c2 = dict(case)
         c2["_no_kf"] = True
-        with repairs.active(repair):
-            _REPAIR_CACHE[key] = evalcase.evaluate(c2)
+        try:
+            with repairs.active(repair):
+                _REPAIR_CACHE[key] = evalcase.evaluate(c2)
+        except Exception as exc:  # pylint: disable=broad-exception-caught
+            # the repair does not fit this tree (renamed or missing function): nothing can be attributed to it
+            _REPAIR_CACHE[key] = {"verdict": "inconclusive", "reason": f"repair-not-applicable: {type(exc).__name__}: {exc}"[:200]}
         if len(_REPAIR_CACHE) > 64:
             _REPAIR_CACHE.pop(next(iter(_REPAIR_CACHE)))
     res = _REPAIR_CACHE[key]
